@@ -1,3 +1,4 @@
+import math
 import networkx as nx
 from flowpaths.utils import graphutils
 import flowpaths.utils as utils
@@ -188,6 +189,10 @@ class stDAG(AbstractSourceSinkGraph):
 
         G_nx = nx.DiGraph()
         demand = dict()
+        # edge capacity: large enough for all demands at once (weights may exceed graphutils.bigNumber)
+        capacity = graphutils.bigNumber
+        if weight_function is not None:
+            capacity = max(capacity, math.ceil(sum(weight_function.get(e, 0) for e in self.edges())) + 1)
 
         G_nx.add_nodes_from(self.nodes())
 
@@ -201,7 +206,7 @@ class stDAG(AbstractSourceSinkGraph):
 
             demand[(u, v)] = edge_demand
             # adding the edge
-            G_nx.add_edge(u, v, l=demand[(u, v)], u=graphutils.bigNumber, c=cost)
+            G_nx.add_edge(u, v, l=demand[(u, v)], u=capacity, c=cost)
 
         minFlowCost, minFlow = graphutils.min_cost_flow(G_nx, self.source, self.sink)
 
